@@ -26,8 +26,16 @@ def trace_excerpt(log, n, before=25, after=4):
     return out[-(before + after + 2):]
 
 
+class ScenarioTimeout(BaseException):
+    pass
+
+
+def _alarm(signum, frame):
+    raise ScenarioTimeout()
+
+
 def explore(desc, make_case, owns, signature, classify=None, sample_pred=None, max_samples=2,
-            time_cap=None, extra_check=None):
+            time_cap=None, extra_check=None, scenario_timeout=60):
     """make_case(rng, i) -> dict(scenario=Scenario, faults=[None|fault,...], value_of=..., prepare=...)
     owns(rule) -> bool; signature(case, ck, log) -> hashable or None (non-trivial signature)."""
     rng = random.Random(desc["seed"])
@@ -36,6 +44,12 @@ def explore(desc, make_case, owns, signature, classify=None, sample_pred=None, m
     foreign = {}
     violations, sigs, samples = [], set(), []
     t0 = time.time()
+    import signal
+    import threading
+
+    use_alarm = threading.current_thread() is threading.main_thread()
+    if use_alarm:
+        signal.signal(signal.SIGALRM, _alarm)
     for i in range(desc["count"]):
         if time_cap and time.time() - t0 > time_cap:
             counters["time_capped"] = 1
@@ -47,12 +61,29 @@ def explore(desc, make_case, owns, signature, classify=None, sample_pred=None, m
         counters["scenarios"] += 1
         for fault in case.get("faults", [None]):
             try:
-                run = Run(sc, fault=fault, send_budget=case.get("send_budget", 8))
-                if case.get("rec_setup"):
-                    case["rec_setup"](run.rec)
-                log = run.execute()
-                rej, ck = check_log(sc.spec, log, value_of=case.get("value_of"),
-                                    strict_args=case.get("strict_args", True), prepare=case.get("prepare"))
+                if use_alarm:
+                    signal.setitimer(signal.ITIMER_REAL, scenario_timeout)
+                try:
+                    run = Run(sc, fault=fault, send_budget=case.get("send_budget", 8))
+                    if case.get("rec_setup"):
+                        case["rec_setup"](run.rec)
+                    log = run.execute()
+                    rej, ck = check_log(sc.spec, log, value_of=case.get("value_of"),
+                                        strict_args=case.get("strict_args", True), prepare=case.get("prepare"))
+                finally:
+                    if use_alarm:
+                        signal.setitimer(signal.ITIMER_REAL, 0)
+            except ScenarioTimeout:
+                # neither the library nor the reference may spin: a scenario takes milliseconds
+                counters["scenario_hangs"] = counters.get("scenario_hangs", 0) + 1
+                violations.append({
+                    "mechanism": "scenario-does-not-terminate", "rule": "hang",
+                    "detail": f"scenario still running after {scenario_timeout}s (library call or callback never returned)",
+                    "witness": {"scenario": sc.to_json(), "fault": fault},
+                })
+                if counters["scenario_hangs"] >= 3:
+                    break
+                continue
             except Exception as err:  # noqa: BLE001  harness problem, never a verdict
                 counters["harness_errors"] += 1
                 if counters["harness_errors"] <= 2:
